@@ -24,6 +24,47 @@ class _Built(Exception):
     pass
 
 
+RHYTHM_FIELDS = ["peal_speed", "inertia", "max_bells_in_dataset", "handstroke_gap", "use_wait", "initial_inertia"]
+
+
+def canon_rhythm_args(bound):
+    """What `create_rhythm` was given, by the names of its six settings and in that order - whether they came as
+    six parameters or packed into one settings object (a NamedTuple, a dataclass)."""
+    import dataclasses
+    flat = {}
+    for name, v in bound.items():
+        if hasattr(v, "_asdict"):
+            flat.update(v._asdict())
+        elif dataclasses.is_dataclass(v) and not isinstance(v, type):
+            flat.update({f.name: getattr(v, f.name) for f in dataclasses.fields(v)})
+        else:
+            flat[name] = v
+    if all(f in flat for f in RHYTHM_FIELDS[:5]):
+        return {f: flat.get(f, 0) for f in RHYTHM_FIELDS}
+    vals = list(flat.values())           # (renamed: by position)
+    return dict(zip(RHYTHM_FIELDS, vals + [0] * (len(RHYTHM_FIELDS) - len(vals))))
+
+
+def make_rhythm(**kw):
+    """`create_rhythm` called with the six settings by name, however its signature packs them."""
+    import typing
+    create = wmain.create_rhythm
+    sig = inspect.signature(create)
+    names = list(sig.parameters)
+    if set(RHYTHM_FIELDS[:5]) <= set(names):
+        return create(**{k: kw[k] for k in names if k in kw})
+    if len(names) == 1:
+        try:
+            T = typing.get_type_hints(create).get(names[0])
+        except Exception:  # noqa
+            T = None
+        if isinstance(T, type):
+            fields = getattr(T, "_fields", None) or [f for f in getattr(T, "__dataclass_fields__", {})]
+            if fields and set(RHYTHM_FIELDS[:5]) <= set(fields):
+                return create(T(**{k: kw[k] for k in fields if k in kw}))
+    return create(*[kw[f] for f in RHYTHM_FIELDS])
+
+
 def run(argv, comp_text=None, xml_text=None):
     """-> {"outcome": "built", "gen": <row generator>, "rhythm_args": {...}, "bot": {...}, "tower": (id, url)}
        |  {"outcome": "exit", "code": <SystemExit.code>, "stderr": text}
@@ -47,7 +88,9 @@ def run(argv, comp_text=None, xml_text=None):
 
     def create_rhythm(*a, **k):
         try:
-            cap["rhythm_args"] = dict(inspect.signature(real_create).bind(*a, **k).arguments)
+            b = inspect.signature(real_create).bind(*a, **k)
+            b.apply_defaults()
+            cap["rhythm_args"] = canon_rhythm_args(dict(b.arguments))
         except TypeError:
             cap["rhythm_args"] = {"args": a, "kwargs": k}
         r = real_create(*a, **k)
